@@ -355,6 +355,17 @@ theorem by_cell_exact (r : Region) (cell : List Rat) (k : Nat → Nat)
     simp [hn]
   rw [h3]
   simp only [Bool.not_true, Bool.false_eq_true, if_false]
+  have h3b : allLt r.ndim (fun a => decide (1 ≤ (roundHalfEven (r.edge a / cell.getD a 0)).toNat)) = true := by
+    rw [allLt_iff]; intro a ha
+    obtain ⟨hk0, hke⟩ := hk a ha
+    have hca := hc a ha
+    have : r.edge a / cell.getD a 0 = ((k a : Int) : Rat) := by
+      rw [hke]; field_simp; simp
+    rw [this, roundHalfEven_int]
+    simp only [Int.toNat_natCast, decide_eq_true_eq]
+    omega
+  rw [h3b]
+  simp only [Bool.not_true, Bool.false_eq_true, if_false]
   rw [hbc]
   simp only [Bool.not_true, Bool.false_eq_true, if_false]
   have h5 : (tab r.ndim fun a => (roundHalfEven (r.edge a / cell.getD a 0)).toNat) = tab r.ndim k := by
@@ -407,6 +418,83 @@ theorem indices_entry (ns : List Nat) (k : Nat) (hk : k < natProd ns) :
   rw [List.getD_eq_getElem?_getD, List.getElem?_map, List.getElem?_range hk]
   simp only [Option.map_some, Option.getD_some]
   exact flatF_unflatF ns k hk
+
+/-- **A mesh requested by cell size exists only when every edge is a whole number of cells**
+(up to the 0.1 % tolerance of the constructor): if the constructor succeeds, the cell count of
+every axis is a whole number `n_a ≥ 1` with `|edge_a − n_a·cell_a| ≤ min(cell)/1000`.  Together
+with `by_cell_exact` (exact whole numbers are accepted) and `by_cell_rejects` (remainders clearly
+inside the band are refused) this is the "exists exactly when" clause.  The positivity half was
+false of the code before repo fix 5c501c0e (finding D101). -/
+theorem by_cell_ok_near (r : Region) (hr : r.Inv) (cell : List Rat) (bc : String) (m : Mesh)
+    (h : Mesh.mkCell? r cell bc = .ok m) (a : Nat) (ha : a < r.ndim) :
+    m.region = r ∧ 1 ≤ m.nAt a ∧ |r.edge a - (m.nAt a : Rat) * cell.getD a 0| ≤ listMin cell / 1000 := by
+  unfold Mesh.mkCell? at h
+  split at h
+  · cases h
+  next hlen =>
+  split at h
+  · cases h
+  next hany =>
+  split at h
+  · cases h
+  next hcont =>
+  split at h
+  · cases h
+  next hdiv =>
+  split at h
+  · cases h
+  next hcnt =>
+  split at h
+  · cases h
+  next hbc =>
+  injection h with h
+  subst h
+  have hlen : cell.length = r.ndim := not_not.mp hlen
+  have hposall : ∀ c ∈ cell, 0 < c := by
+    intro c hc
+    have h1 : cell.any (fun c => decide (c ≤ 0)) = false := by simpa using hany
+    have := List.any_eq_false.mp h1 c hc
+    simpa using this
+  have hmem : cell.getD a 0 ∈ cell := by
+    have hlt : a < cell.length := by rw [hlen]; exact ha
+    rw [List.getD_eq_getElem?_getD, List.getElem?_eq_getElem hlt]
+    exact List.getElem_mem _
+  have hc : 0 < cell.getD a 0 := hposall _ hmem
+  have ht0 : 0 ≤ listMin cell / 1000 := by
+    have := listMin_nonneg cell hposall; linarith
+  have htc : listMin cell / 1000 < cell.getD a 0 / 2 := by
+    have := listMin_le_mem cell _ hmem; linarith
+  have hd : notDivisible (r.edge a) (cell.getD a 0) (listMin cell / 1000) = false := by
+    have h1 : allLt r.ndim (fun a => !notDivisible (r.edge a) (cell.getD a 0) (listMin cell / 1000)) = true := by
+      simpa using hdiv
+    have := (allLt_iff _ _).mp h1 a ha
+    simpa using this
+  have hnear := round_near _ _ _ hc ht0 htc hd
+  have he : 0 < r.edge a := by
+    unfold Region.edge; have := hr.2.2.2.2.2 a ha; linarith
+  have hq : 0 ≤ r.edge a / cell.getD a 0 := (div_pos he hc).le
+  have hrn := roundHalfEven_nonneg _ hq
+  have hnat : Mesh.nAt (Mesh.mk r (tab r.ndim (fun a => (roundHalfEven (r.edge a / cell.getD a 0)).toNat)) bc.toLower []) a
+      = (roundHalfEven (r.edge a / cell.getD a 0)).toNat := by
+    unfold Mesh.nAt; simp only; rw [getD_tab _ _ _ _ ha]
+  have hcast : (((roundHalfEven (r.edge a / cell.getD a 0)).toNat : Nat) : Rat)
+      = ((roundHalfEven (r.edge a / cell.getD a 0) : Int) : Rat) := by
+    have : (((roundHalfEven (r.edge a / cell.getD a 0)).toNat : Nat) : Int) = roundHalfEven (r.edge a / cell.getD a 0) :=
+      Int.toNat_of_nonneg hrn
+    exact_mod_cast this
+  have hone : 1 ≤ (roundHalfEven (r.edge a / cell.getD a 0)).toNat := by
+    have h1 : allLt r.ndim (fun a => decide (1 ≤ (roundHalfEven (r.edge a / cell.getD a 0)).toNat)) = true := by
+      simpa using hcnt
+    have := (allLt_iff _ _).mp h1 a ha
+    simpa using this
+  refine ⟨rfl, ?_, ?_⟩
+  · rw [hnat]; exact hone
+  · rw [hnat, hcast]; exact hnear
+
+/-- the far-offset witness of D101 is refused by the model as by the repaired code -/
+example : (Mesh.mkCell? (Region.mk [1000000000000000] [1000000000000001] ["x"] ["m"] (1/1000000000000)) [1000]).toOption
+    = none := by decide +kernel
+
 
 /-! ## round 3: list-level tiling, iteration, coordinate field, volume -/
 
